@@ -186,19 +186,29 @@ def drive_b(rec, ks, quick):
     for k in ks:
         nrep = 3 if quick else 8
         long_chain = (k in (1, 2, 7, 16, 19, 31, 62)) or not quick
-        for rep in range(nrep + (2 if long_chain else 1)):
+        # directed: carry chains over more than 64 and more than 128 dropped limbs, whatever k (every limb on the digit boundary, or
+        # every limb at +-2^62), results that lie far above the dropped part; through the plain, the big and the range entry points
+        chains = [(1, 66, "vec"), (2, 130, "big"), (60, 67, "vec"), (1, 126, "range"), (4, 136, "range"), (61, 69, "big"), (3, 129, "vec")]
+        if not long_chain:
+            chains = []
+        elif quick and k != 1:
+            chains = rng.sample(chains, 2)
+        for rep in range(nrep + 1 + len(chains)):
             asz = rng.randrange(1, 6)
             rsz = rng.choice([0, asz, asz, max(0, asz - 1), asz + 1, rng.randrange(0, 7)])
             overlay = True
+            want = None
             if rep == nrep:     # directed: many dropped low limbs (more than 64 bits of them) under a maximal carry chain
                 rsz = rng.choice([0, 1, 1, 2])
                 asz = rsz + 64 // k + 2 + rng.randrange(1, 3)
-            if rep == nrep + 1:  # directed: carry chains over more than 64 and more than 128 dropped limbs, whatever k (every limb on the
-                rsz = rng.choice([1, 2, 4, 60])     # digit boundary, or every limb at +-2^62), and results that lie far above the dropped part
-                asz = rsz + rng.choice([65, 66, 67, 70, 126, 129, 130, 136])
+            if rep > nrep:
+                rsz, drop, want = chains[rep - nrep - 1]
+                asz = rsz + drop
                 overlay = False
             A = patterns(k, asz, n, rng, overlay)
             variant, mk = eps[(k + rep) % len(eps)]
+            if want:
+                variant, mk = rng.choice([e for e in eps if e[0] == want])
             alias = rng.random() < 0.3 and variant != "range"
             rs = range_for(asz, rng) if variant == "range" else None
             if not rec.progress("%s[%s] N=%d k=%d a_size=%d res_size=%d alias=%s range=%s (62-bit data)" % (
